@@ -128,6 +128,7 @@ def run(cfg, fault_at=None, resume_from=None, file_path=None, keep_points=False,
     orng.CONFIG["factory"] = None
     orng.CONFIG["seed"] = seed
     mon = Monitor(p["like"], p["prior"], ns, fault_at=fault_at, fault_exc=fault_exc, keep_points=keep_points)
+    mon.ret_dtype = cfg.get("callback_dtype")
     flow = AnalyticFlow(p["dims"], seed=seed + 1000, xp_name=ns, dtype=get_dtype(ns, cfg.get("dtype")), **p["flow"])
     a = Aspire(log_likelihood=mon.log_likelihood, log_prior=mon.log_prior, dims=p["dims"], parameters=p["parameters"],
                prior_bounds=p["bounds"], periodic_parameters=p["periodic"], flow=flow, xp=xp,
